@@ -2,5 +2,6 @@ SPECIFICATION Spec
 CONSTANTS
   N = 4
   Depth = 12
+  Sim = TRUE
 INVARIANTS Emit FrameOK TypeOK
 CHECK_DEADLOCK FALSE
